@@ -10,7 +10,7 @@
 
   Not covered here (it is the typed half of the statement, "unparsable effective value yields an
   error"): `Value.Set` of the effective text.  That step is the last loop of `Parse`, modelled in
-  Glb/Model/Config.lean and proved in Props/C09 (`parse_fails_exactly`); for C10 it is checked on
+  Glb/Model/Config.lean and proved in Props/C09 (`parse_ok_iff`); for C10 it is checked on
   the real code by the direct oracle of harness stream `argv`.
 -/
 import Glb.Proofs.ArgParse
@@ -237,7 +237,13 @@ theorem effective_none_iff (as : List (Bytes × Bytes)) (n : Bytes) :
 
 section examples
 
-deriving instance DecidableEq for Except
+/-- decidable equality of model outcomes, so that the examples below are checked by `decide`
+    (a named instance inside this namespace: it cannot clash with other modules) -/
+instance exceptDecEq {ε α : Type} [DecidableEq ε] [DecidableEq α] : DecidableEq (Except ε α)
+  | .ok a, .ok b => if h : a = b then isTrue (by rw [h]) else isFalse (by intro e; injection e; contradiction)
+  | .error a, .error b => if h : a = b then isTrue (by rw [h]) else isFalse (by intro e; injection e; contradiction)
+  | .ok _, .error _ => isFalse (by intro e; cases e)
+  | .error _, .ok _ => isFalse (by intro e; cases e)
 
 /-- `x`, `n`: non-boolean flags; `b`: boolean flag; `a=b` and `-x` are names the guard rejects -/
 def demo : Bytes → Option Bool := fun n =>
